@@ -422,3 +422,403 @@ def comments_ok(line, toks):
         return "comment tokens %d, listed %d; first difference: %r" % (
             len(want), len(have), next(((a, b) for a, b in zip(want + [None] * len(have), have + [None] * len(want)) if a != b), None))
     return None
+
+
+# ------------------------------------------------------------------ spec lexer with offsets (C07, C08)
+
+import unicodedata  # noqa: E402
+
+
+_D = r"[0-9](?:_?[0-9])*"
+_H = r"[0-9a-fA-F](?:_?[0-9a-fA-F])*"
+_E = r"[eE][+-]?" + _D
+_FLOATS = [r"0[xX](?:_?%s\.(?:%s)?|_?%s|\.%s)[pP][+-]?%s" % (_H, _H, _H, _H, _D),
+           r"%s\.(?:%s)?(?:%s)?" % (_D, _D, _E), r"%s%s" % (_D, _E), r"\.%s(?:%s)?" % (_D, _E)]
+_INTS = [r"0[bB](?:_?[01])+", r"0[oO](?:_?[0-7])+", r"0[xX](?:_?[0-9a-fA-F])+", r"0(?:_?[0-7])+", r"[1-9](?:_?%s)?" % _D, r"0"]
+# the spec's numeric literals, longest alternative first within each class; an imaginary literal is a decimal
+# digit run, an int_lit or a float_lit followed by i
+_SPEC_NUM_ALTS = [a + "i" for a in _FLOATS + _INTS + [_D]] + _FLOATS + _INTS
+
+
+class _Longest(object):
+    def __init__(self, alts):
+        self.res = [re.compile(a) for a in alts]
+
+    def match(self, s, i):
+        best = None
+        for r in self.res:
+            m = r.match(s, i)
+            if m and (best is None or m.end() > best.end()):
+                best = m
+        return best
+
+
+_SPEC_NUM = _Longest(_SPEC_NUM_ALTS)
+
+
+def _is_letter(c):
+    return c == "_" or unicodedata.category(c) in ("Lu", "Ll", "Lt", "Lm", "Lo")
+
+
+_KIND_OF = {"ident": "I", "int": "N", "float": "F", "imag": "M", "rune": "R", "string": "S", "kw": "K", "op": "O"}
+_WS = " \t\r\n"
+
+
+def spec_lex(src):
+    """Go-spec tokenisation of src: [(pos|None, kind, text)] with comments (kind C) and automatically
+    inserted semicolons (pos None, kind O, text ';').  Raises ValueError on a lexical error.
+    White space is the spec's: blank, tab, CR, LF."""
+    out = []
+    i, n = 0, len(src)
+    trig = False
+
+    def asi():
+        nonlocal trig
+        if trig:
+            out.append((None, "O", ";"))
+        trig = False
+    while i < n:
+        c = src[i]
+        if c == "\n":
+            asi()
+            i += 1
+            continue
+        if c in " \t\r":
+            i += 1
+            continue
+        if src.startswith("//", i):
+            j = src.find("\n", i)
+            j = n if j < 0 else j
+            asi()                       # the line comment runs to the line end: the line ends here
+            out.append((i, "C", src[i:j]))
+            i = j
+            continue
+        if src.startswith("/*", i):
+            j = src.find("*/", i + 2)
+            if j < 0:
+                raise ValueError("unterminated comment at %d" % i)
+            text = src[i:j + 2]
+            if "\n" in text:
+                asi()
+            elif trig:
+                # a general comment without newline acts like a blank: the decision is made by what follows
+                k = j + 2
+                if _line_ends(src, k):
+                    asi()
+            out.append((i, "C", text))
+            i = j + 2
+            continue
+        if _is_letter(c):
+            j = i + 1
+            while j < n and (_is_letter(src[j]) or unicodedata.category(src[j]) == "Nd"):
+                j += 1
+            w = src[i:j]
+            kind = "kw" if w in gogen._KEYWORDS else "ident"
+            out.append((i, _KIND_OF[kind], w))
+            trig = kind == "ident" or w in gogen._ASI_KW
+            i = j
+            continue
+        if c in "0123456789" or (c == "." and i + 1 < n and src[i + 1] in "0123456789"):
+            m = _SPEC_NUM.match(src, i)
+            if not m:
+                raise ValueError("bad number at %d" % i)
+            w = m.group()
+            kind = "imag" if w.endswith("i") else (
+                "float" if re.search(r"[.pP]", w) or (not w.startswith(("0x", "0X")) and re.search(r"[eE]", w)) else "int")
+            out.append((i, _KIND_OF[kind], w))
+            trig = True
+            i = m.end()
+            continue
+        if c in '"`':
+            m = gogen._STR.match(src, i)
+            if not m:
+                raise ValueError("bad string at %d" % i)
+            out.append((i, "S", m.group()))
+            trig = True
+            i = m.end()
+            continue
+        if c == "'":
+            m = gogen._RUNE.match(src, i)
+            if not m:
+                raise ValueError("bad rune at %d" % i)
+            out.append((i, "R", m.group()))
+            trig = True
+            i = m.end()
+            continue
+        for o in gogen._OPS_BY_LEN:
+            if src.startswith(o, i):
+                out.append((i, "O", o))
+                trig = o in gogen._ASI_OP
+                i += len(o)
+                break
+        else:
+            raise ValueError("unexpected character %r at %d" % (c, i))
+    asi()
+    return out
+
+
+def _line_ends(src, k):
+    """only blanks and comments up to the line end (spec: a general comment without newline is a blank)"""
+    n = len(src)
+    while k < n:
+        c = src[k]
+        if c == "\n":
+            return True
+        if c in " \t\r":
+            k += 1
+            continue
+        if src.startswith("//", k):
+            return True
+        if src.startswith("/*", k):
+            j = src.find("*/", k + 2)
+            if j < 0:
+                return True
+            if "\n" in src[k:j]:
+                return True
+            k = j + 2
+            continue
+        return False
+    return True
+
+
+def tokens_vs_spec(src, token_line, with_comments=True):
+    """C07/C08 oracle: the crate's token dump against the spec tokenisation.  The crate emits a synthetic
+    ';' BEFORE trailing comments of the line; the spec lexer above places it where the decision is made, so
+    the comparison is on (a) the sequence without comments and (b) the comments with their offsets."""
+    toks, rest = parse_token_line(token_line)
+    try:
+        want = spec_lex(src)
+    except ValueError as e:
+        if rest.startswith("EOF"):
+            return "spec: %s, but the crate scanned to the end" % e
+        return None
+    for p, k, t in want:
+        # a number directly followed by a letter, digit, '_' or '.': the literal grammar alone does not settle
+        # where the number ends (C09 states its theorems for delimited runs); not judged here
+        if k in "NFM" and p is not None and p + len(t) < len(src) and (
+                _is_letter(src[p + len(t)]) or src[p + len(t)] in "0123456789."):
+            return None
+    if not rest.startswith("EOF"):
+        return "spec tokenises the whole input, the crate stops with: %s" % rest[:60]
+    have_nc = [(k, t) for p, k, t in toks if k != "C"]
+    want_nc = [(k, t) for p, k, t in want if k != "C"]
+    if have_nc != want_nc:
+        i = next((i for i, (a, b) in enumerate(zip(have_nc + [None] * len(want_nc), want_nc + [None] * len(have_nc))) if a != b), -1)
+        return "token %d: crate %r, spec %r" % (i, have_nc[i] if i < len(have_nc) else None, want_nc[i] if i < len(want_nc) else None)
+    # offsets of the real tokens: the k-th real token of the crate must sit where the spec found it
+    have_real = [(p, k, t) for p, k, t in toks if not (k == "O" and t == ";" and not lexeme_at(src, p, ";"))]
+    want_real = [(p, k, t) for p, k, t in want if p is not None]
+    if not with_comments:
+        have_real = [x for x in have_real if x[1] != "C"]
+        want_real = [x for x in want_real if x[1] != "C"]
+    hs, ws = sorted(have_real), sorted(want_real)
+    if hs != ws:
+        d = [x for x in hs if x not in ws][:2] + [x for x in ws if x not in hs][:2]
+        return "token offsets/texts differ: %r" % (d,)
+    for p, k, t in have_real:
+        if not lexeme_at(src, p, t):
+            return "token text %r is not the source text at %d" % (t, p)
+    return None
+
+
+REPR_TOKENS = (
+    ["+", "-", "*", "/", "%", "&", "|", "^", "<<", ">>", "&^", "+=", "-=", "*=", "/=", "%=", "&=", "|=", "^=", "<<=",
+     ">>=", "&^=", "&&", "||", "<-", "++", "--", "==", "<", ">", "=", "!", "~", "!=", "<=", ">=", ":=", "...", "(", ")",
+     "[", "]", "{", "}", ",", ";", ".", ":"] +
+    ["break", "case", "chan", "const", "continue", "default", "defer", "else", "fallthrough", "for", "func", "go",
+     "goto", "if", "import", "interface", "map", "package", "range", "return", "select", "struct", "switch", "type",
+     "var"] +
+    ["x", "_", "forx", "iff", "func1", "été", "日本", "x٣", "0", "17", "0x1F", "0b101", "0o17",
+     "017", "1_000", "1.5", "1e9", ".25", "0x1p-2", "3i", "0x1Fi", "1.e2", "'a'", "'\\n'", "'\\u65e5'", "'日'",
+     '"s"', '"\\"q\\""', "`r`", "`a\nb`"])
+SEPARATORS = ["", " ", "\t", "\n", "/*c*/", "//c\n"]
+
+
+def lexpair_cases():
+    out = []
+    for a in REPR_TOKENS:
+        for b in REPR_TOKENS:
+            for s in SEPARATORS:
+                out.append(Case(a + s + b, "F-lexpairs"))
+    return out
+
+
+SEMI_CONTEXTS = ["\n", "\r\n", "", "  \t\n", " // c\n", " /* c */\n", " /* a\n b */ y", " /* c */ y", "/*c*//*d*/\n",
+                 " /* c */ // d\ny", " y\n"]
+
+
+def semi_cases():
+    kinds = REPR_TOKENS[:48 + 25] + ["x", "17", "1.5", "3i", "'a'", '"s"', "`r`"]
+    return [Case(t + c, "F-semi", note=t) for t in kinds for c in SEMI_CONTEXTS]
+
+
+# ------------------------------------------------------------------ C04: operator families and grouping oracle
+
+BINOPS = ["||", "&&", "==", "!=", "<", "<=", ">", ">=", "+", "-", "|", "^", "*", "/", "%", "<<", ">>", "&", "&^"]
+UNOPS = ["+", "-", "!", "^", "*", "&", "<-"]
+PREC = {"||": 1, "&&": 2, "==": 3, "!=": 3, "<": 3, "<=": 3, ">": 3, ">=": 3, "+": 4, "-": 4, "|": 4, "^": 4,
+        "*": 5, "/": 5, "%": 5, "<<": 5, ">>": 5, "&": 5, "&^": 5}
+POSTFIX = [(".f", lambda x: "(Selector %s (Ident s:f))" % x),
+           ("[i]", lambda x: "(Index %s (Ident s:i))" % x),
+           ("(y)", lambda x: "(Call %s (List (Ident s:y)) (None))" % x),
+           (".(T)", lambda x: "(TypeAssert %s (Ident s:T))" % x),
+           ("[i:j]", lambda x: "(Slice %s (Ident s:i) (Ident s:j) (None))" % x),
+           ("()", lambda x: "(Call %s (List) (None))" % x)]
+
+
+def group_spec(items):
+    """items: operand shape strings alternating with binary operator strings; returns the shape the Go spec
+    dictates (5 levels, left associative), by the textbook shunting reduction — independent of the crate"""
+    out = [items[0]]
+    ops = []
+
+    def reduce_():
+        o = ops.pop()
+        r = out.pop()
+        l = out.pop()
+        out.append("(Operation o:%s %s %s)" % (o, l, r))
+    i = 1
+    while i < len(items):
+        o = items[i]
+        while ops and PREC[ops[-1]] >= PREC[o]:
+            reduce_()
+        ops.append(o)
+        out.append(items[i + 1])
+        i += 2
+    while ops:
+        reduce_()
+    return out[0]
+
+
+def _id(k):
+    return "(Ident s:%s)" % "abcdefgh"[k]
+
+
+def ops_cases(quadruples=False, seed=1, nrandom=500):
+    cases = []
+    names = "abcdefgh"
+    import itertools
+    for n in (1, 2, 3) + ((4,) if quadruples else ()):
+        for combo in itertools.product(BINOPS, repeat=n):
+            src = names[0]
+            items = [_id(0)]
+            for k, o in enumerate(combo):
+                src += " " + o + " " + names[k + 1]
+                items += [o, _id(k + 1)]
+            cases.append(Case(src, "F-ops-%d" % n, expected=group_spec(items)))
+    # every unary operator in every operand slot of every binary operator
+    for u in UNOPS:
+        ux = lambda x: "(Operation o:%s %s (None))" % (u, x)
+        for o in BINOPS:
+            cases.append(Case("%s a %s b" % (u, o), "F-ops-unary", expected=group_spec([ux(_id(0)), o, _id(1)])))
+            cases.append(Case("a %s %s b" % (o, u), "F-ops-unary", expected=group_spec([_id(0), o, ux(_id(1))])))
+        for text, mk in POSTFIX:
+            cases.append(Case("%s a%s" % (u, text), "F-ops-postfix", expected=ux(mk(_id(0)))))
+        for u2 in UNOPS:
+            if (u + u2) in ("++", "--", "&&", "<-<-"[:0] or "~~"):
+                continue
+            cases.append(Case("%s %s a" % (u, u2), "F-ops-unary",
+                              expected="(Operation o:%s (Operation o:%s %s (None)) (None))" % (u, u2, _id(0))))
+    # redundant and needed parentheses
+    rng = random.Random(seed)
+    for _ in range(nrandom):
+        n = 2 + rng.randrange(5)
+        ops_ = [rng.choice(BINOPS) for _ in range(n)]
+        items = [_id(0)]
+        for k, o in enumerate(ops_):
+            items += [o, _id(k + 1)]
+        # choose a sub-range to parenthesise
+        lo = rng.randrange(n)
+        hi = lo + 1 + rng.randrange(n - lo)
+        inner = items[2 * lo: 2 * hi + 1]
+        pshape = "(Paren %s)" % group_spec(inner)
+        outer = items[:2 * lo] + [pshape] + items[2 * hi + 1:]
+        toks = []
+        for k, it in enumerate(items):
+            t = names[k // 2] if k % 2 == 0 else it
+            if k == 2 * lo:
+                t = "(" + t
+            if k == 2 * hi:
+                t = t + ")"
+            toks.append(t)
+        cases.append(Case(" ".join(toks), "F-ops-paren", expected=group_spec(outer)))
+    return cases
+
+
+def oracle_expected_shape(c, line, tl=None):
+    if c.expected is None:
+        return None
+    if not line.startswith("OK "):
+        return "valid input rejected: %s" % line[:80]
+    sh = proj_shape(line)
+    if sh != c.expected:
+        return "shape differs from the spec derivation: " + sexpr.first_diff(c.expected, sh)
+    return None
+
+
+# ------------------------------------------------------------------ C16: error locations
+
+def true_loc(src, p):
+    line = 1 + src.count("\n", 0, p)
+    last = src.rfind("\n", 0, p)
+    return line, p - (last + 1)
+
+
+def adj_line(l):
+    """KF-21 (pinned by the crate's unit tests): after line 1 the reported line is the true line - 1"""
+    return 1 if l == 1 else l - 1
+
+
+def errloc_ok(src, line):
+    """C16 oracle. returns (None | message, needs_adj) — needs_adj: the location is right only modulo KF-21"""
+    if line.startswith("OK "):
+        return None, False
+    f = line.split(" ")
+    if f[0] != "ERR" or len(f) < 4 or f[1] not in ("u", "e"):
+        return "rejection is not a located gosyn::Error: %s" % line[:80], False
+    l, c = int(f[2]), int(f[3])
+    n = len(src)
+    cands = []          # (p, exact?)
+    for p in range(n + 1):
+        tl, tc = true_loc(src, p)
+        if tc != c:
+            continue
+        if tl == l:
+            cands.append((p, True))
+        elif adj_line(tl) == l:
+            cands.append((p, False))
+    if not cands:
+        return "location (%d, %d) is no position of the input" % (l, c), False
+    if f[1] == "u":
+        tok = f[4] if len(f) > 4 else "EOF"
+        if tok == "EOF":
+            ok = [(p, e) for p, e in cands if p == n]
+            if not ok:
+                return "unexpected EOF reported at (%d, %d), not at the end of input" % (l, c), False
+        else:
+            text = unesc(tok.partition(":")[2][1:])
+            ok = [(p, e) for p, e in cands if lexeme_at(src, p, text) or (text == ";" and _line_ends(src, p))]
+            if not ok:
+                return "unexpected token %r is not found at (%d, %d)" % (text, l, c), False
+        cands = ok
+    return None, not any(e for p, e in cands)
+
+
+def damaged_cases(progs, per_prog=3):
+    cases = []
+    for i, (rng, p) in enumerate(progs):
+        for k in range(per_prog):
+            toks = mutate_tokens(rng, p.tokens, 1)
+            st = ("newlines", "random", "comments")[k % 3]
+            try:
+                src = gogen.render(toks, rng, st)
+            except Exception:
+                continue
+            cases.append(Case(src, "F-err-mut", i, st))
+        # unterminated literal / comment at the end of a random line
+        src = gogen.render(p.tokens, rng, "newlines")
+        lines = src.split("\n")
+        for bad in ('"abc', "'a", "`raw\nmore", "/* c\nd", "'", '"\\', "0x", "1e+", "'\\400'", "\x01", "#"):
+            k = rng.randrange(len(lines))
+            cases.append(Case("\n".join(lines[:k] + [lines[k] + " " + bad] + lines[k + 1:]), "F-err-lit", i, "newlines"))
+    return cases
